@@ -8,8 +8,8 @@
    [tree_at t cs r] = following the names cs from the root reaches a node with record r; its path
    is [joinc cs] (names joined with '/'), and cs <> [] excludes the root itself.
    [walk t] = the list of Stat values passed to the callback of fs.Walk(ctx, "", fn), in order. *)
-From Coq Require Import List NArith Bool Sorting.Sorted.
-From FS Require Import Sx Model.Path Model.Stat Model.Walk Proofs.Lex Proofs.PathP Proofs.WalkP.
+From Coq Require Import List NArith Bool Sorting.Sorted Sorting.Permutation.
+From FS Require Import Sx Model.Path Model.Stat Model.Tree Model.Walk Proofs.Lex Proofs.PathP Proofs.WalkP.
 Import ListNotations.
 Open Scope N_scope.
 
@@ -82,11 +82,60 @@ Theorem walk_hardlinks :
                       else if bytes_eqb (joinc cs0) (joinc cs) then [] else joinc cs0).
 Proof. exact walk_hardlinks_proof. Qed.
 
+(* Walking a sub-target (fs.Walk(ctx, target, fn) with a target that Clean reduces to the non-empty
+   component list cs): nothing is reported if there is no such node; otherwise exactly the node at
+   cs and everything below it, each once, strictly ascending in protocol order (hence the target
+   first and every directory before its contents).  For a target that reduces to the root,
+   walk_at is walk by definition. *)
+Theorem walk_at_sub :
+  forall t target, wf_tree t ->
+  target_comps target <> [] ->
+  ((forall r, ~ tree_at t (target_comps target) r) -> walk_at t target = []) /\
+  (forall r0, tree_at t (target_comps target) r0 ->
+     StronglySorted (fun p q => compare_path p q = Lt) (map st_path (walk_at t target)) /\
+     (forall p, In p (map st_path (walk_at t target)) <->
+                exists c r, p = joinc (target_comps target ++ c) /\ tree_at t (target_comps target ++ c) r) /\
+     NoDup (map st_path (walk_at t target))).
+Proof. exact walk_at_sub_proof. Qed.
+
+(* SubDirFS.  For proper sub-roots (names = distinct well-formed single components, directory
+   Stats, well-formed trees) the composite walk is: the sub-roots in bytewise name order; for each
+   its own Stat, then its walk with "name/" put in front of every path and every hard-link name,
+   absolute symlink targets re-rooted below "/name" (lexically cleaned, as path.Join does),
+   relative symlink targets untouched ([sd_block], [prefix_stat]); no error; and the whole
+   callback sequence is strictly ascending in protocol path order. *)
+Theorem subdir_walk_prefixed :
+  forall ds, sd_wf ds ->
+  walk_subdirs ds [] = Some (flat_map sd_block (isort_sd ds), false)
+  /\ Permutation (isort_sd ds) ds
+  /\ StronglySorted (fun a b => cmp_bytes (sd_name a) (sd_name b) = Lt) (isort_sd ds)
+  /\ StronglySorted (fun p q => compare_path p q = Lt) (map fst (flat_map sd_block (isort_sd ds))).
+Proof. exact subdir_walk_prefixed_proof. Qed.
+
+(* The shared view model (Model/Tree.v, used by the other properties through MemFS): the canonical
+   listing of a view whose sibling lists are strictly ascending bytewise, with non-empty
+   separator-free names, is strictly ascending in protocol path order and has no duplicate path. *)
+Theorem view_walk_sorted :
+  forall roots, wf_view roots ->
+  StronglySorted (fun p q => compare_path p q = Lt) (map (fun e => st_path (fst e)) (walk_root roots))
+  /\ NoDup (map (fun e => st_path (fst e)) (walk_root roots)).
+Proof. exact view_walk_sorted_proof. Qed.
+
+(* The sortedness check evaluated by the glue on the implementation's callbacks is the predicate
+   of walk_sorted. *)
+Theorem sorted_b_reflects :
+  forall l, sorted_b l = true <-> StronglySorted (fun p q => compare_path p q = Lt) l.
+Proof. exact sorted_b_spec. Qed.
+
 Print Assumptions walk_sorted.
 Print Assumptions walk_complete_once.
 Print Assumptions walk_parent_first.
 Print Assumptions walk_stat.
 Print Assumptions walk_hardlinks.
+Print Assumptions walk_at_sub.
+Print Assumptions subdir_walk_prefixed.
+Print Assumptions view_walk_sorted.
+Print Assumptions sorted_b_reflects.
 
 (* ---- non-vacuity ---- *)
 Definition rec_ (mode ino nlink : N) (target : list N) : lrec :=
@@ -129,4 +178,31 @@ Example ex_spec :
   let snap := entries_root ex_tree in
   spec_walk_b [] snap (walk ex_tree) = true /\
   spec_walk_b [] snap (match walk ex_tree with a :: b :: r => b :: a :: r | l => l end) = false.
+Proof. vm_compute. split; reflexivity. Qed.
+
+(* sub-target: "./a/" is cleaned to a; the target itself is reported first; only the inode group
+   inside the sub-tree counts (a/x is the first holder of inode 5 there) *)
+Example ex_walk_at :
+  map (fun s => (st_path s, st_linkname s)) (walk_at ex_tree [46; 47; A; 47]) =
+  [ ([A], []); ([A; 47; X], []); ([A; 47; Y], [47; 116]) ]
+  /\ walk_at ex_tree [A; 47; 110; 111] = [] /\ walk_at ex_tree [47] = walk ex_tree.
+Proof. vm_compute. repeat split; reflexivity. Qed.
+
+(* SubDirFS over two sub-roots "s" and "r" both holding ex_tree: r first; paths, the hard-link
+   name a/x and the absolute symlink target /t are prefixed *)
+Definition dstat (name : list N) : stat :=
+  {| st_path := name; st_mode := 2147484141; st_uid := 0; st_gid := 0; st_size := 0; st_mtime := 5;
+     st_linkname := []; st_devmajor := 0; st_devminor := 0; st_xattrs := [] |}.
+Example ex_subdirs :
+  match walk_subdirs [ {| sd_stat := dstat [115]; sd_tree := ex_tree |};
+                       {| sd_stat := dstat [114]; sd_tree := ex_tree |} ] [] with
+  | Some (cbs, err) =>
+    err = false /\
+    map (fun e => (fst e, st_linkname (snd e))) cbs =
+    [ ([114], []); ([114; 47; A], []); ([114; 47; A; 47; X], []); ([114; 47; A; 47; Y], [47; 114; 47; 116]);
+      ([114; 47; A; 32; B], []); ([114; 47; A; 45; B], [114; 47; A; 47; X]);
+      ([115], []); ([115; 47; A], []); ([115; 47; A; 47; X], []); ([115; 47; A; 47; Y], [47; 115; 47; 116]);
+      ([115; 47; A; 32; B], []); ([115; 47; A; 45; B], [115; 47; A; 47; X]) ]
+  | None => False
+  end.
 Proof. vm_compute. split; reflexivity. Qed.
